@@ -20,11 +20,13 @@ TRUSTED = [
 
 def scan_forbidden():
     bad = []
-    for base, dirs, files in os.walk(COQ):
-        for f in files:
-            if not f.endswith('.v'):
+    listed = [l.strip() for l in open(os.path.join(COQ, '_CoqProject')) if l.strip().endswith('.v')]
+    for rel in listed:
+        if rel.startswith('Gen/'):
+            continue
+        for p in [os.path.join(COQ, rel)]:
+            if not os.path.exists(p):
                 continue
-            p = os.path.join(base, f)
             txt = open(p, encoding='utf-8').read()
             # strip comments (non-nested is enough for our sources; nested handled by a small loop)
             out = []
